@@ -90,6 +90,21 @@ def r1_r2_header(repo, report):
     ends = [k for k, v in env0.items() if isinstance(v, Lin) and v == endp]
     maxs = [k for k, v in env0.items() if isinstance(v, Lin) and v == Lin.k(126) - Lin.atom("BASE")]
     report.ob("C14.R1", "max_phred = 126 - base", len(maxs) == 1, facts={"definitions": {k: vkey(v) for k, v in env0.items() if k not in (P, N, B)}}, expected="max_phred = 126 - base", loc="src/cutadapt/expected_errors.h")
+    # the guard 'phred > max_phred -> invalid' protects the table only if max_phred never exceeds the last index, for EVERY
+    # base (the command line accepts any integer for --quality-base; 126 - base is computed in uint8_t and also wraps)
+    if len(maxs) == 1:
+        mp = maxs[0]
+        clamps = []
+        for s_ in body:
+            if s_ is loops[0]:
+                break
+            if isinstance(s_, ast.If) and isinstance(s_.test, ast.Compare) and len(s_.test.ops) == 1 and isinstance(s_.test.ops[0], ast.Gt) and chain(s_.test.left) == mp and isinstance(s_.test.comparators[0], ast.Constant) \
+                    and len(s_.body) == 1 and isinstance(s_.body[0], ast.Assign) and chain(s_.body[0].targets[0]) == mp and isinstance(s_.body[0].value, ast.Constant) and not s_.orelse:
+                clamps.append((s_.test.comparators[0].value, s_.body[0].value.value))
+        okc = any(k == v and isinstance(k, int) and 0 <= k <= size - 1 for k, v in clamps)
+        report.ob("C14.R1", "the validity bound never exceeds the table", okc, facts={"table_entries": size, "clamps": clamps}, loc="src/cutadapt/expected_errors.h",
+                  expected=f"{mp} = 126 - base, limited to the last table index ({size - 1}) before it is used as the guard",
+                  why="" if okc else f"for --quality-base below 33 (or above 126, where the uint8_t difference wraps) scores up to 126 - base pass the guard and SCORE_TO_ERROR_RATE is read behind its {size} entries: the expected-error value is whatever lies there (NaN in practice) and the read passes --max-ee")
     if len(ends) != 1 or len(maxs) != 1 or len(accs) < 1:
         raise Unrecognised(f"prologue of expected_errors_from_phreds not recognised (end pointer {ends}, max {maxs}, accumulators {accs})")
     curs = [k for k, v in env0.items() if isinstance(v, Lin) and v == Lin.atom("P") and k != P]
@@ -185,6 +200,41 @@ def r1_r2_header(repo, report):
     cs = [x for x in calls(fn2) if chain(x.func) == "expected_errors_from_phreds"]
     ok = len(cs) == 1 and [src(a) for a in cs[0].args] == ["quals", "qual_length", "base"]
     report.ob("C14.R2", "qualtrim.expected_errors passes (data, length, base)", ok, facts={"call": src(cs[0]) if cs else None}, expected="expected_errors_from_phreds(quals, qual_length, base)", loc=repo.loc(fn2))
+
+    # the sentinel must not escape as a value: whenever the C function rejects a character (phred > max_phred in uint8_t
+    # arithmetic, with the clamp found above), the wrapper's search for the culprit must find one.  Both predicates are
+    # functions of (character code 0..127, base 0..255): compared exhaustively on that finite domain.
+    from .. import constfold
+    neg = [x for x in ast.walk(fn2) if isinstance(x, ast.If) and isinstance(x.test, ast.Compare) and chain(x.test.left) == "e" and isinstance(x.test.ops[0], ast.Lt)]
+    conds = [y for x in neg for lp_ in ast.walk(x) if isinstance(lp_, ast.For) for y in lp_.body if isinstance(y, ast.If) and any(isinstance(r_, ast.Raise) for r_ in y.body)]
+    loops_ = [lp_ for x in neg for lp_ in ast.walk(x) if isinstance(lp_, ast.For)]
+    if len(conds) != 1 or len(loops_) != 1 or not isinstance(loops_[0].target, ast.Name):
+        report.unrecognised("C14.R2", "qualtrim.expected_errors: invalid characters are reported", "'if e < 0: for q in qualities: if <cond>: raise' not found", repo.loc(fn2))
+    else:
+        qv = loops_[0].target.id
+        bpar = params(fn2)[1]
+        clamp_list = locals().get("clamps", [])
+        leaks = []
+        try:
+            for b_ in range(256):
+                for c_ in range(128):
+                    mx = (126 - b_) & 255
+                    for k_, v_ in clamp_list:
+                        if mx > k_:
+                            mx = v_
+                    if ((c_ - b_) & 255) > mx and not constfold.fold(conds[0].test, {qv: chr(c_), bpar: b_}):
+                        leaks.append({"character_code": c_, "base": b_})
+                        if len(leaks) >= 3:
+                            raise StopIteration
+        except StopIteration:
+            pass
+        except constfold.NotConstant as e_:
+            leaks = None
+            report.unrecognised("C14.R2", "qualtrim.expected_errors: invalid characters are reported", f"culprit test is not a closed expression of (character, base): {e_}", repo.loc(conds[0]))
+        if leaks is not None:
+            report.ob("C14.R2", "qualtrim.expected_errors: every character the C function rejects is reported", not leaks, facts={"pairs_compared": 128 * 256, "rejected_but_not_reported": leaks}, cases=128 * 256, loc=repo.loc(conds[0]),
+                      expected="if the C function returns the error sentinel, the search for the offending character raises",
+                      why=(f"for character code {leaks[0]['character_code']} and quality base {leaks[0]['base']} the C function returns -1.0 but the wrapper finds no invalid character and returns -1.0 as the number of expected errors: the read passes --max-ee" if leaks else ""))
 
 
 # ---------------------------------------------------------------------------
